@@ -13,7 +13,7 @@ CLAIMED = {
    note=TB + "Modelled-not-verified: x86 instructions as functions of declared read bytes writing declared bytes (C04); VEX upper-bit zeroing (F12); encodability rule for high-byte registers measured on the Go assembler."),
  "C02": dict(cat="proof", tech="Lean 4 proof of fixed-point exactness + exact correspondence + path-search acceptor",
    text="Theorems liveness_exact / liveout_exact: when the in-place round-robin iteration stops, a byte lane is reported live iff the path specification holds (soundness by invariant, completeness at the quiet sweep), for every CFG and mask combination; order independence proved. MaskSet operations are proved to be set operations on (id, lane). The real Liveness is compared exactly with the model and with a direct path-search evaluation of the specification; the real use/def extraction of every form is compared with the read/write specification derived from the form's operand actions.",
-   note=TB + "Termination of the iteration is not proved in Lean (the driver uses a computed fuel bound and reports non-termination); operand actions of the table are taken as given (C04)."),
+   note=TB + "Termination is proved (liveness_terminates / liveness_exact_total: no fuel hypothesis remains); operand actions of the table are taken as given (C04)."),
  "C03": dict(cat="proof", tech="Lean 4 proof over regenerated register table + acceptor on bound output",
    text="compile_bound_ok / compile_targets_unrestricted: for every function, whatever allocation the model of avo's allocator returns, every register that binds is bound as the property demands and no target is a Restricted register (SP, K0); bindReg_ok (for all tables/allocations/registers): a bound register is physical, author-chosen registers are unchanged, a virtual is replaced by the same-width view of its one assigned id; decide-complete facts over the regenerated register file (Restricted = SP and K0 views, uniform per id, never candidates; 8H only on A/C/D/B; lookup returns the requested view; BP last). The acceptor checks exactly this on every bound function produced by the real passes; outcome classes compared with the model.",
    note=TB + "Gen.regs is produced by running the compiled reg package's own API on every run."),
